@@ -252,7 +252,7 @@ class Machine:
     # ------------------------------------------------------------------ compute
     def sim(self, ev, keep_all=False):
         return Sim(random.Random(ev.get("sseed", 0)), policy=ev.get("policy", "fifo"), release=ev.get("release", False),
-                   keep_all=keep_all, prop=self.prop, stats=self.stats)
+                   keep_all=keep_all, prop=self.prop, stats=self.stats, fail_at=ev.get("fail_at"))
 
     def compute(self, x, ev, keep_all=False):
         sim = self.sim(ev, keep_all or self.all_values is not None)
